@@ -346,8 +346,10 @@ def rule_R19_5(ctx):
                    "null; the renderer reads only its argument",
                    "a renderer that consults anything else is not a function "
                    "of the value")
+    import anchors as _an
     printers = [f for f in prog.hand_fns() if not f.is_closure
-                and any((c.res or "").startswith(("std::io::_print", "std::io::stdout")) for c in f.calls())]
+                and any((c.res or "").startswith(("std::io::_print", "std::io::stdout"))
+                        and not _an.driver_only_stdout(prog, f, c) for c in f.calls())]
     if not r.require_floor("print builtin", len(printers), 1):
         return r
     graph = prog.call_graph()
